@@ -93,6 +93,8 @@ def leaf_kinds():
     for cls in ("NodeA", "NodeB"):
         ks["obj-other-module-" + cls] = I.map(lambda sd, cls=cls: {"t": "obj", "cls": cls, "mod": 2, "attrs": [["a", {"t": "int", "v": sd % 7}]]})
         ks["obj-first-module-" + cls] = I.map(lambda sd, cls=cls: {"t": "obj", "cls": cls, "attrs": [["a", {"t": "int", "v": sd % 7}]]})
+    for c in ("pickle-bytes", "gzip-dill-bytes", "gzip-bytes", "zip-magic", "json-bytes"):
+        ks["nd-lookalike-" + c] = I.map(lambda sd, c=c: {"t": "nd", "dtype": "uint8", "shape": [1], "seed": sd, "layout": "C", "content": c})
     for kind in ("linear", "sequential", "modulelist"):
         ks["module-" + kind] = I.map(lambda sd, kind=kind: {"t": "module", "kind": kind, "seed": sd})
     return ks
@@ -130,6 +132,10 @@ def matrix_cases(draw, leaf_strategy=None):
         ("child", o(("a", leaf), ("d", {"t": "dict", "items": [["k", leaf]]}))),
         ("long", {"t": kind, "items": long_items}),
     ]
+    # ONE child instance reachable along several paths (acyclic sharing): two attributes, a list holding it three
+    # times, a dict value
+    shared = dict(o(("a", leaf), ("n", {"t": "int", "v": 5})), alias="s1")
+    attrs += [("twin1", shared), ("twin2", shared), ("thrice", {"t": "list", "items": [shared, shared, shared]}), ("in_dict_again", {"t": "dict", "items": [["s", shared]]})]
     return {"kind": "roundtrip", "tier": "matrix", "root": o(*attrs), "cfg1": draw(configs()), "cfg2": draw(configs())}
 
 
